@@ -34,7 +34,7 @@ def plan(tier, seed):
 def gen(tier, seed, index):
     rng = G.rng_for(seed, 'C11', tier, index)
     cls = CLASSES[index % len(CLASSES)]
-    pool = ['jpre-shape', 'jpre-shape', 'edgeless-internal', 'edgeless-ext', 'shared-factor', 'factor-twice-in-rule', 'ext-also-attached-twice', 'many-rules', 'edge-twice', 'plain', 'unit-base']
+    pool = ['jpre-shape', 'jpre-shape', 'edgeless-internal', 'edgeless-ext', 'shared-factor', 'factor-twice-in-rule', 'ext-also-attached-twice', 'many-rules', 'edge-twice', 'plain', 'unit-base', 'pass-through-self-rule', 'pass-through-self-rule']
     forced = [pool[(index // 4) % len(pool)]]
     if forced == ['jpre-shape'] and rng.random() < 0.5:
         forced.append('edgeless-internal')
